@@ -407,6 +407,7 @@ def dispatch (line : String) : String :=
       else if fn.startsWith "c07." || fn.startsWith "o.c07." then c07 fn args
       else if fn.startsWith "c03.reject" || fn.startsWith "o.c03.reject" then pg fn args
       else if fn.startsWith "c03." || fn.startsWith "o.c03." then c03 fn args
+      else if fn.startsWith "c13.dry" || fn.startsWith "o.c13.dry" then pg fn args
       else if fn.startsWith "c13." || fn.startsWith "o.c13." then c13 fn args
       else if fn.startsWith "c12.refer" || fn.startsWith "o.c12.refer" then pg fn args
       else if fn.startsWith "c12.contig" || fn.startsWith "o.c12.contig" then tp fn args
